@@ -21,6 +21,11 @@ def items(tier):
         for method in ("replacement", "single_pass"):
             for strat in (None, "by_label", "by_group"):
                 out.append({"kind": "sampling", "P": P, "N": N, "G": G, "method": method, "strat": strat})
+    # by_group needs every group to hold both classes for single_pass: at least 2+2 samples over 2 groups
+    for method in ("replacement", "single_pass"):
+        out.append({"kind": "sampling", "P": 2, "N": 2, "G": 2, "method": method, "strat": "by_group"})
+    for sc, ec in CFGS[:2]:
+        out.append({"kind": "names", "sc": sc, "ec": ec, "P": 2, "N": 2})
     out.append({"kind": "dynamic"})
     out.append({"kind": "errors"})
     return out
@@ -118,6 +123,24 @@ def run_structure(h, sc, ec, P, N, G):
     h.check("groupwise(callable) stacks per-group results in group order", h.And([h.eq(x, y, 0) for x, y in zip(gw2, h.cells(gs.group_cm(t).matrix))]))
     al = h.cells(gs.group_tar(t)), h.cells(gs.group_tpr(t))
     h.check("group alias", h.And([(h.is_nan(x) and h.is_nan(y)) if (h.is_nan(x) or h.is_nan(y)) else h.eq(x, y, 0) for x, y in zip(*al)]))
+
+
+def run_names(h, sc, ec, P, N):
+    """explicitly provided group names are used as is (not sorted): every per-group result follows THAT order."""
+    pos, neg, pg, ng = _data(h, P, N, 3)
+    names = [2, 0, 1]
+    t = h.real("t")
+    gs = h.sa.GroupScores(h.array(pos), h.array(neg), pos_groups=h.array(pg), neg_groups=h.array(ng), score_class=sc, equal_class=ec, group_names=names)
+    h.check("explicit group names kept in the given order", [int(str(x)) if h.mode == "sym" else int(x) for x in h.cells(gs.groups)] == names)
+    gcm = h.cells(gs.group_cm(t).matrix)
+    for j, g in enumerate(names):
+        want = _group_counts(h, pos, neg, pg, ng, g, t, sc, ec)
+        h.check("explicit names: per-group matrix j belongs to group_names[j]", h.And([h.eq(a, b) for a, b in zip(gcm[4 * j:4 * j + 4], want)]))
+        sub = gs[g]
+        h.check("explicit names: indexing by a group yields that group's scores",
+                h.And(h.eq(len(h.cells(sub.pos)), h.count([h.eq(l, g) for l in pg])), h.eq(len(h.cells(sub.neg)), h.count([h.eq(l, g) for l in ng]))))
+    B = gs.bootstrap_sample(h.sa.BootstrapConfig(sampling_method="replacement", stratified_sampling="by_label"))
+    h.check("explicit names survive sampling in order", [str(x) for x in h.cells(B.groups)] == [str(x) for x in h.cells(gs.groups)])
 
 
 def run_sampling(h, P, N, G, method, strat):
